@@ -763,6 +763,8 @@ def r4_raises(program, rep):
               "allocation map", construct="returns", node=fn)
 
 
+r2_r3.helper_aware = True
+
 def check(program, rep):
     rep.guard("C05-R1", r1_helpers, program, rep)
     rep.guard("C05-R2", r2_r3, program, rep)
